@@ -229,10 +229,11 @@ type modSet struct {
 	all    bool
 	allocs bool
 	callbacks bool
+	calls     map[string]bool // names of everything that may be called inside the loop
 }
 
 func (fv *FuncVer) havocLoop(st *State, f *Frame, li *loopInfo) {
-	ms := &modSet{cells: map[cellKey]bool{}, heaps: map[string]bool{}, alias: map[ssa.Value]aliasRef{}}
+	ms := &modSet{cells: map[cellKey]bool{}, heaps: map[string]bool{}, alias: map[ssa.Value]aliasRef{}, calls: map[string]bool{}}
 	visited := map[*ssa.Function]bool{}
 	var blocks []*ssa.BasicBlock
 	for b := range li.body {
@@ -242,6 +243,15 @@ func (fv *FuncVer) havocLoop(st *State, f *Frame, li *loopInfo) {
 	fv.collectMods(st, f, blocks, ms, visited, f.bindings)
 	if ms.all {
 		fv.havocAll(st, "loop body with unknown effects")
+	}
+	// events of earlier iterations are not on this path: leave markers
+	var cn []string
+	for n := range ms.calls {
+		cn = append(cn, n)
+	}
+	sort.Strings(cn)
+	for _, n := range cn {
+		st.events = append(st.events, Event{Name: n, Site: "loop", Maybe: true})
 	}
 	var cks []cellKey
 	for k := range ms.cells {
@@ -479,6 +489,22 @@ func (fv *FuncVer) modVal(v Val, t types.Type, ms *modSet) {
 
 func (fv *FuncVer) modCall(st *State, f *Frame, ci ssa.CallInstruction, ms *modSet, visited map[*ssa.Function]bool, bindings []Val) {
 	cc := ci.Common()
+	if ms.calls != nil {
+		switch {
+		case cc.IsInvoke():
+			ms.calls[ifaceMethodName(cc.Value.Type(), cc.Method)] = true
+		default:
+			if fn, ok := cc.Value.(*ssa.Function); ok {
+				ms.calls[fn.String()] = true
+			} else if _, ok := cc.Value.(*ssa.Builtin); !ok {
+				name := "funcvalue"
+				if p := paramOf(cc.Value); p != nil {
+					name = "param:" + p.Name()
+				}
+				ms.calls[name] = true
+			}
+		}
+	}
 	if _, isGo := ci.(*ssa.Go); isGo {
 		return
 	}
